@@ -81,6 +81,7 @@ ASSUMPTIONS = ["the function does not raise StopIteration (asyncio cannot carry 
                "'runs off the event-loop thread so the loop keeps serving' is measured (thread identity, heartbeat progress), "
                "not modelled: the model only says the call is a suspension point"]
 
+OBJ_DECOS = ("asyn", "asyn_call", "asyn_ex", "asyn_loop", "wasync_s", "traced_s", "m_cache_s", "m_cache_p", "m_retry_s", "m_retry_p")
 DECOS_CALL = ["asyn", "asyn_call", "asyn_ex", "asyn_loop", "wasync_s", "wasync_a", "traced_s", "traced_a"]
 DECOS_META = ["m_cache_s", "m_cache_a", "m_cache_p", "m_retry_s", "m_retry_a", "m_retry_p", "m_throttle", "m_throttle_p",
               "m_timeout"]
@@ -143,7 +144,7 @@ def parse(case: str) -> dict:
         d["recv"] = "a"
     d["callobj"] = "0"
     if d["form"] == "obj":      # a callable object handed to the decorator: everywhere else it is a plain function call
-        d["form"], d["callobj"] = "fn", "1" if d["deco"] in ("asyn", "asyn_call", "asyn_ex", "asyn_loop", "wasync_s", "traced_s") else "x"
+        d["form"], d["callobj"] = "fn", "1" if d["deco"] in OBJ_DECOS else "x"
     return d
 
 
@@ -400,7 +401,6 @@ def decorate(env: Env, deco: str, fn):
 
 
 IS_ASYNC = {"wasync_a", "traced_a", "m_cache_a", "m_retry_a", "m_throttle", "m_throttle_p", "m_timeout", *DECOS_STACK}
-OBJ_DECOS = ("asyn", "asyn_call", "asyn_ex", "asyn_loop", "wasync_s", "traced_s")
 AWAITED = {"asyn", "asyn_call", "asyn_ex", "asyn_loop", "wasync_s", "wasync_a", "traced_a"}
 
 
@@ -432,6 +432,12 @@ def build(env: Env, d: dict):
             def __call__(self, *args, **kwargs):
                 return self.inner(*args, **kwargs)
 
+            def __len__(self):
+                # a callable that is also a (currently empty) collection – a pipeline / registry object: falsy in half of the
+                # cases; whether something is wrapped must not depend on its truth value
+                return falsy_len
+
+        falsy_len = 0 if num(d["sig"]) % 2 == 0 or d["doc"] == "0" else 3
         co = CallableObject(fn)
         return co, decorate(env, deco, co), None
     fn = env.make_function(is_async, True, "m")
@@ -736,9 +742,9 @@ def direct_reference(d: dict) -> tuple[str, str]:
 def model_input(case: str, real_out: str) -> str:
     try:
         d = parse(case)
+        case = case.replace("form=obj", "form=fn")
         if d["deco"] in DECOS_META:
-            return case
-        case = case.replace("form=obj", "form=fn")    # a callable object is a callable: the model's `Fn` is arbitrary behaviour
+            return case    # a callable object is a callable: the model's `Fn` is arbitrary behaviour
         out, bind = direct_reference(d)
     except Exception:  # noqa: BLE001
         return case
@@ -928,6 +934,8 @@ def gen_case(rng, deco=None) -> str:
     if deco in DECOS_META:
         if deco.split("_")[1] not in ("cache",) and form == "cls":
             form = "meth"
+        if deco in OBJ_DECOS and rng.random() < 0.3:
+            form = "obj"
         return f"deco={deco} form={form} doc={rng.choice('110')}"
     root = "1" if rng.random() < 0.85 else "0"
     site = []
@@ -994,6 +1002,7 @@ def corpus():
         # the receiver of every call of a sequence: instance, shallow copy of it, instance again; subclass with super()
         "deco=traced_s form=fn root=1 site=a1 sig=3 pos=i1 kw=cls:i5 out=r:i2",     # a keyword named like the machinery's own parameter
         "deco=traced_a form=fn root=1 site=- sig=0 pos=i1 kw=cls:i5,k:i2 out=r:i2",
+        "deco=m_cache_s form=obj doc=1", "deco=m_retry_s form=obj doc=0", "deco=m_cache_p form=obj doc=1",
         f"deco=asyn form=obj {base}",                          # a callable object with private attributes of its own
         f"deco=asyn_ex form=obj {base} leak=9 rec=4",
         f"deco=wasync_s form=obj {base}",
